@@ -11,7 +11,7 @@ type BlobWriterT = ociregistry.BlobWriter
 // randOps draws a seeded-random history over the catalogue's universe.  Arguments are
 // biased towards values that make calls succeed (things pushed earlier) but every
 // argument is sometimes drawn blindly.
-func randOps(rnd *rand.Rand, cat *Catalog, steps int, profile string) []Op {
+func randOps(rnd *rand.Rand, cat *Catalog, steps int, profile string, honest bool) []Op {
 	var blobs, mans []string
 	for _, c := range cat.Contents {
 		if c.Man {
@@ -43,6 +43,7 @@ func randOps(rnd *rand.Rand, cat *Catalog, steps int, profile string) []Op {
 		return pick([]string{"0", "a0", "m", "zzzz", "A"})
 	}
 	var ops []Op
+	var hs []*honestUp
 	openU := map[string][]int{} // what we believe was written to each upload
 	uRepo := map[string]string{}
 	nextU := 0
@@ -64,6 +65,9 @@ func randOps(rnd *rand.Rand, cat *Catalog, steps int, profile string) []Op {
 	}
 	for len(ops) < steps {
 		k := rnd.Intn(100)
+		if profile == "range" && k >= 52 && rnd.Intn(10) < 6 {
+			k = 66 + rnd.Intn(9)
+		}
 		if profile == "upload" && k >= 30 {
 			k = 30 + rnd.Intn(22)
 		}
@@ -72,6 +76,47 @@ func randOps(rnd *rand.Rand, cat *Catalog, steps int, profile string) []Op {
 			if k >= 12 {
 				k = 12 + (k-12)%18
 			}
+		}
+		if honest && k >= 34 && k < 52 {
+			// Uploads as a well-behaved caller drives them: one target blob per session,
+			// pieces in order, resume at the reported size (or by asking), one commit.
+			if len(hs) == 0 || (len(hs) < 3 && rnd.Intn(3) == 0) {
+				if nextU >= len(cat.Uploads) {
+					continue
+				}
+				u := cat.Uploads[nextU]
+				nextU++
+				s := &honestUp{u: u, r: repo(), target: cat.byID[pick(blobs)]}
+				hs = append(hs, s)
+				ops = append(ops, Op{Op: "PushBlobChunked", R: s.r, U: u, Chunk: pick3(rnd)})
+				continue
+			}
+			i := rnd.Intn(len(hs))
+			s := hs[i]
+			switch x := rnd.Intn(10); {
+			case x < 5 && s.pos < len(s.target.Elems):
+				n := 1 + rnd.Intn(len(s.target.Elems)-s.pos)
+				ops = append(ops, Op{Op: "Write", R: s.r, U: s.u, Data: s.target.Elems[s.pos : s.pos+n]})
+				s.pos += n
+			case x < 7:
+				size := len(elemsToBytes(s.target.Elems[:s.pos]))
+				off := size
+				if rnd.Intn(2) == 0 && size != 1 {
+					off = -1
+				}
+				ops = append(ops, Op{Op: "Close", R: s.r, U: s.u}, Op{Op: "Resume", R: s.r, U: s.u, Off: off, Chunk: pick3(rnd)})
+			case x < 8:
+				ops = append(ops, Op{Op: "UpSize", R: s.r, U: s.u})
+			default:
+				dd := s.target.ID
+				if s.pos < len(s.target.Elems) || rnd.Intn(6) == 0 {
+					// an early or wrong commit: must fail and store nothing
+					dd = pick(blobs)
+				}
+				ops = append(ops, Op{Op: "Commit", R: s.r, U: s.u, DD: dd})
+				hs = append(hs[:i], hs[i+1:]...)
+			}
+			continue
 		}
 		switch {
 		case k < 12: // push blob
@@ -233,3 +278,11 @@ func containsBlock(elems []int) bool {
 	}
 	return false
 }
+
+type honestUp struct {
+	u, r   string
+	target *Content
+	pos    int
+}
+
+func pick3(rnd *rand.Rand) int { return []int{0, 0, 1, 2, 3, 5}[rnd.Intn(6)] }
